@@ -24,7 +24,7 @@ from pvm.gen import c26_nonmatching as nm
 from pvm.ref.c25_geometry import Network
 
 PROP = "C26"
-N = {"quick": 50, "thorough": 2000}
+N = {"quick": 40, "thorough": 2000}
 WORKERS = {"quick": 4, "thorough": 16}
 TIMEOUT = {"quick": 300, "thorough": 1800}
 CASE_TIMEOUT = 120.0
